@@ -41,7 +41,7 @@ func runC09(c *Ctx) {
 	for _, backend := range []string{"MapB", "LevelB"} {
 		for _, record := range []string{"none", "entry", "garbage", "truncated", "empty"} {
 			for _, fault := range []string{"none", "closed"} {
-				if backend == "MapB" && fault != "none" {
+				if backend == "MapB" && fault != "none" && record != "none" && record != "entry" {
 					continue
 				}
 				cs := &c09Case{Level: "store", Backend: backend, Record: record, Fault: fault, Listed: record != "none"}
@@ -114,7 +114,9 @@ func runC09(c *Ctx) {
 				} else if cs.Revoked {
 					obs = "Ok (Some 1)"
 				}
-				items = append(items, fmt.Sprintf("mk_fc %d %s %s %s %s (%s)", idx, backend, flt, coqByteList([]byte(issuer.String())), rec, obs))
+				if !(backend == "MapB" && fault == "closed") { // closing a memory store is not a fault of the model: direct oracle only
+					items = append(items, fmt.Sprintf("mk_fc %d %s %s %s %s (%s)", idx, backend, flt, coqByteList([]byte(issuer.String())), rec, obs))
+				}
 				idx++
 			}
 		}
@@ -186,6 +188,13 @@ func runC09(c *Ctx) {
 			continue
 		}
 		faulty := cs.Fault != "none" || cs.Record == "garbage" || cs.Record == "truncated" || cs.Record == "empty"
+		if cs.Backend == "MapB" && cs.Fault == "closed" && cs.Level == "store" {
+			// a memory store that was closed (concurrent shutdown) may refuse to answer or keep answering — but what it answers must be true
+			if cs.Err == "" && cs.Revoked != (cs.Record == "entry") {
+				c.Fail("", fmt.Sprintf("memory store after Close: a lookup for a certificate that is %s answered revoked=%v without an error", map[bool]string{true: "listed", false: "not listed"}[cs.Record == "entry"], cs.Revoked), cs)
+			}
+			continue
+		}
 		if faulty && cs.Err == "" {
 			tag := ""
 			if cs.Backend == "LevelB" && cs.Fault != "none" {
@@ -202,6 +211,6 @@ func runC09(c *Ctx) {
 	}
 	c.WriteCoqSharded("cases_C09", "From Verif Require Import Base Bytes Store RunStore.\nOpen Scope N_scope.\n", "fault_case", items, "fault_mismatches", 100)
 	c.Rep.Cases = len(cases) + c09SwapStage(c)
-	c.Rep.Rule = "every combination of backend x stored record {absent, entry, garbage, truncated, empty} x fault {none, closed DB}; plus the validator end to end on a loaded disk CRL with the DB handle closed, the directory removed, the table files overwritten, for listed and unlisted certificates; plus a refresh whose final swap fails (both backends x strict x CDP/configured list) with one lookup queued on the entry during the swap and lookups after it; non-trivial = a fault or an undecodable record is present"
+	c.Rep.Rule = "every combination of backend x stored record {absent, entry, garbage, truncated, empty} x fault {none, closed DB} (memory store: closed with absent/entry); plus the validator end to end on a loaded disk CRL with the DB handle closed, the directory removed, the table files overwritten, for listed and unlisted certificates; plus a refresh whose final swap fails (both backends x strict x CDP/configured list) with one lookup queued on the entry during the swap and lookups after it; non-trivial = a fault or an undecodable record is present"
 	c.Rep.Extra["exhaustive"] = true
 }
